@@ -46,8 +46,14 @@ def on_field(site, field):
     return f == field and bt is not None and HL in bt
 
 
+def closures_of(F, m):
+    """closure instances defined inside m (same monomorphic parent)"""
+    return [i for i in F.inst if i.kind == "closure" and i.body is not None and i.name.startswith(m.name + "::{closure#")]
+
+
 def reads_slots(F, m, R):
-    """does m read reader slots: a load on an element obtained from a whole borrow / index of the slots field"""
+    """does m sample reader slots: it borrows the slots field (as a whole or by index) and loads an AtomicUsize — in its own
+    body or in a closure defined in it (e.g. passed to an iterator adapter)"""
     whole = False; idx = []
     for bl in m.blocks:
         for s in bl["s"]:
@@ -68,7 +74,30 @@ def reads_slots(F, m, R):
                         elif q["k"] == "index":
                             idx.append(("var", q["l"]))
     loads = [s for s in sites(F, m) if s.op == "load" and s.aty == "usize"]
+    for c in closures_of(F, m):
+        loads += [s for s in sites(F, c) if s.op == "load" and s.aty == "usize"]
     return whole, idx, loads
+
+
+SHORT_CIRCUIT = ("all", "any", "find", "find_map", "position", "rposition", "try_for_each", "try_fold", "take_while", "skip_while", "map_while",
+                 "scan", "is_sorted_by", "eq_by", "cmp_by")
+
+
+def short_circuit_sampling(F, m, R):
+    """slot loads that sit in a closure handed to a short-circuiting iterator combinator: [(combinator, span)]"""
+    out = []
+    for c in closures_of(F, m):
+        if not [s for s in sites(F, c) if s.op == "load" and s.aty == "usize"]:
+            continue
+        for bb, t in m.calls():
+            for ai, a in enumerate(t["args"]):
+                for e in flow(m).term_arg(bb, ai):
+                    e = deep_strip(e)
+                    if e[0] == "agg" and e[1][0] == "closure" and e[1][1] == c.defp:
+                        name = (t.get("def") or "").split("::")[-1]
+                        if name in SHORT_CIRCUIT:
+                            out.append((name, t["sp"]))
+    return out
 
 
 def rule_a(ctx, R, T):
@@ -97,7 +126,7 @@ def rule_a(ctx, R, T):
         c = F.inst[t["f"]]
         if not (c.local and c.body is not None):
             continue
-        par = F.reach([c], stop=lambda x: not x.local)
+        par = F.reach([c])
         for x in par:
             xi = F.inst[x]
             if xi.body is None or not xi.local:
@@ -233,6 +262,9 @@ def rule_e(ctx, R, T, reader):
         okk = whole or const_idx == list(range(R.n))
         ctx.check(okk, rid, "barrier-covers-all:%s" % T, "the writer-side wait reads the whole reader-slot array (all %d slots)" % R.n, m.span,
                   {"whole_array_borrow": whole, "indices": [str(i) for i in idx], "problem": "only some reader slots are waited for"})
+        sc = short_circuit_sampling(F, m, R)
+        ctx.check(not sc, rid, "every-slot-every-pass:%s" % T, "every pass samples every reader slot (the loads are not under a short-circuiting iterator combinator)", m.span,
+                  {"short_circuiting": sc, "why": "a slot that is skipped while another one is busy can never be recorded as idle; with overlapping deliveries the writer then spins forever"})
     if not found:
         raise AnchorLost("barrier function for HalfLock<%s>" % T)
 
